@@ -30,7 +30,7 @@ def make(shape):
         cx.canary("strictly-beyond", cx.lt(dot(x, d), dot(res, d)))
         cx.cover("end")
 
-    @contract("colliders.%s.first_vertex+center" % K, fn=shape.cls + ".first_vertex", props=["C03"], deps=[shape.cls + ".center"])
+    @contract("colliders.%s.first_vertex+center" % K, fn=shape.cls + ".first_vertex", props=["C03", "C08", "C02"], deps=[shape.cls + ".center"])
     def _fv(cx):
         """first_vertex() and center() are points of the shape"""
         P = shape.params(cx)
